@@ -246,16 +246,18 @@ def short(v, n=160):
 
 
 def exc_origin(exc: BaseException):
-    """(in_library, function name) of the innermost traceback frame."""
+    """(in_library, function name): walking from the innermost frame outwards, does the first frame that
+    belongs to either the library under test or the harness belong to the library?"""
     tb = traceback.extract_tb(exc.__traceback__)
-    if not tb:
-        return False, ""
-    lib = None
-    for fr in tb:
-        if os.path.realpath(fr.filename).startswith(os.path.join(REPO, "geoh5py")):
-            lib = fr
-    last = tb[-1]
-    harness = os.path.realpath(last.filename).startswith(ROOT + os.sep)
-    if lib is not None and not harness:
-        return True, lib.name
-    return False, last.name
+    lib_root = os.path.join(REPO, "geoh5py") + os.sep
+    har_root = os.path.join(ROOT, "gvm") + os.sep
+    for fr in reversed(tb):
+        fn = fr.filename
+        if not os.path.isabs(fn):
+            continue  # compiled extension frames (h5py/*.pyx)
+        fn = os.path.realpath(fn)
+        if fn.startswith(lib_root):
+            return True, fr.name
+        if fn.startswith(har_root):
+            return False, fr.name
+    return False, tb[-1].name if tb else ""
